@@ -406,6 +406,35 @@ def make_agent_class():
                 if op == "place":
                     self._place(market, txn, a)
                     return
+                if op == "bulk_place":
+                    t = market.transaction(client=self._client())
+                    with t:
+                        for i in range(a["n"]):
+                            sub = dict(a["proto"])
+                            if a.get("mvs"):
+                                sub["mv"] = a["mvs"][i % len(a["mvs"])]
+                            self._place(market, t, sub)
+                            if i in a.get("exec_after", ()):
+                                t.execute()
+                    return
+                if op == "bulk":
+                    lst = self.orders.setdefault(market.market_id, [])
+                    live = [o for o in lst if o.status is not None and o.status.name == "EXECUTABLE"][: a["n"]]
+                    t = market.transaction(client=self._client())
+                    with t:
+                        for i, o in enumerate(live):
+                            try:
+                                if a["kind"] == "cancel":
+                                    t.cancel_order(o)
+                                elif a["kind"] == "update":
+                                    t.update_order(o, "PERSIST" if getattr(o.order_type, "persistence_type", None) != "PERSIST" else "LAPSE")
+                                else:
+                                    mv = self._mv(market, (a.get("mvs") or [None])[i % len(a.get("mvs") or [None])])
+                                    t.replace_order(o, a["price"], market_version=mv)
+                            except (_F["OrderUpdateError"], _F["OrderError"]):
+                                run.res.probes["agent.bulk.rejected"] += 1
+                    run.res.probes["agent.bulk.%s" % a["kind"]] += 1
+                    return
                 if op == "raise":
                     if a.get("flumine"):
                         raise _F["FlumineException"]("scripted")
@@ -431,10 +460,17 @@ def make_agent_class():
                         return
                     order = lst[i]
                 kw = {"force": True} if a.get("force") else {}
+                if op == "place_again":
+                    r = txn.place_order(order, **kw) if txn is not market else txn.place_order(order, client=self._client(), **kw)
+                    run.res.probes["agent.place_again.%s" % ("ok" if r else "refused")] += 1
+                    return
                 if op == "cancel":
                     red = a.get("red")
                     if red == "rem":
-                        red = order.size_remaining or None
+                        try:
+                            red = order.size_remaining or None
+                        except TypeError:  # refused order with an invalid (zero) size
+                            red = None
                     r = txn.cancel_order(order, red, **kw)
                 elif op == "update":
                     r = txn.update_order(order, a["pt"], **kw)
@@ -475,14 +511,14 @@ def make_agent_class():
             hc = a.get("hc", 0)
             trades = self.trades.setdefault(market.market_id, [])
             t = a.get("trade")
-            if t is not None and 0 <= t < len(trades):
+            if t is not None and 0 <= t < len(trades) and trades[t].status.name == "LIVE":
                 sel = trades[t].selection_id  # an order always lives on its trade's selection
             if self.spec.get("discipline"):
                 for o in market.blotter._strategy_selection_orders.get((self, sel, hc), ()):
                     if o.status in BUSY:
                         run.res.probes["agent.place.deferred"] += 1
                         return
-            if t is not None and 0 <= t < len(trades):
+            if t is not None and 0 <= t < len(trades) and trades[t].status.name == "LIVE" and trades[t].selection_id == sel:
                 trade = trades[t]
             else:
                 trade = F["Trade"](
@@ -562,7 +598,7 @@ class Monitor:
 HOOKS = (
     "order_created status_before status request_before request_after txn_execute txn_exit package exec_before "
     "exec_after before_matching after_matching add_transaction results close_before close_after "
-    "remove_market strategy_call strategy_closed log update_start update_end begin end control_error"
+    "remove_market strategy_call strategy_closed log update_start update_end begin end control_error scripted_control_called"
 ).split()
 
 SITE_OWNERS = (
@@ -802,6 +838,11 @@ class BacktestRun:
             fw.add_client(c)
         self.fw = fw
         fw.add_logging_control(SyncLoggingControl())
+        for cs in sc.get("controls", ()):
+            if cs.get("level") == "client":
+                fw.add_client_control(self.clients[cs.get("client", 0)], scripted_control_class(True), spec=cs)
+            else:
+                fw.add_trading_control(scripted_control_class(False), spec=cs)
         for mw in sc.get("middlewares", ()):
             fw.add_market_middleware(ScriptMiddleware(self, mw))
         Agent = agent_class()
@@ -828,6 +869,31 @@ class BacktestRun:
             )
             fw.add_strategy(agent)
             self.agents.append(agent)
+
+
+_SC = {}
+
+
+def scripted_control_class(client_level):
+    if client_level in _SC:
+        return _SC[client_level]
+    from flumine.controls import BaseControl
+
+    class ScriptedControl(BaseControl):
+        NAME = "SCRIPTED_CLIENT_CONTROL" if client_level else "SCRIPTED_TRADING_CONTROL"
+
+        def __init__(self, flumine, *args, spec=None, **kwargs):
+            super().__init__(flumine)
+            self.spec = spec or {}
+
+        def _validate(self, order, package_type):
+            _dispatch("scripted_control_called")
+            sp = self.spec
+            if package_type.name in sp.get("kinds", ()) and getattr(order, "_vid", 0) % sp.get("mod", 2) == sp.get("rem", 0):
+                self._on_error(order, "scripted refusal")
+
+    _SC[client_level] = ScriptedControl
+    return ScriptedControl
 
 
 class ScriptMiddleware:
